@@ -370,10 +370,14 @@ def natural_run(tdgl, p, tmp=None, opts=None):
     layer_asked = dict(xi=p.get("xi", 1.0), lam=p.get("lam", 2.0), d=p.get("d", 0.1))        # in units of `scale`
     dev = devices.make(tdgl, p.get("dev", "bar"), mel=p.get("mel", 0.8), probes=0,
                        length_units=p.get("length_units", "um"), scale=scale, **layer_asked)
-    if p.get("layer_edit"):
+    if p.get("layer_edit") or p.get("translate"):
         import copy as _copy
 
         dev = _copy.deepcopy(dev)          # the shared, cached device must not be edited
+    if p.get("translate"):
+        # history "device moved after meshing": translated IN PLACE (device length units = scale); the reference takes
+        # sites and edge midpoints from the raw site coordinates of the moved mesh
+        dev.translate(dx=p["translate"][0] * scale, dy=p["translate"][1] * scale, inplace=True)
     adaptive = p.get("adaptive", True)
     screening = p.get("screening", False)
     dt_init = p["dt_init"]
@@ -573,7 +577,15 @@ def natural_run(tdgl, p, tmp=None, opts=None):
         except Exception as e:  # noqa
             raised = classify(e)
             if not ev or ev[-1]["ev"] != "raise":
-                raise
+                # raised outside update(): an observation iff the exception comes out of the code under test (innermost
+                # frame inside the tdgl package: the run refused a legitimate input); a harness problem otherwise
+                import traceback
+
+                tb = traceback.extract_tb(e.__traceback__)
+                if tb and str(core.REPO.resolve()) in str(Path(tb[-1].filename).resolve()):
+                    ev.append({"ev": "raise", "why": raised + ":" + str(e)[:120]})
+                else:
+                    raise
     finally:
         P.restore()
     # stored frames: self-consistency of what was written (C13 ii, iii)
